@@ -7,8 +7,10 @@ M=${MUTREPO:-/tmp/mutrepo}
 head=$(git -C /repo rev-parse HEAD)
 if [ ! -d $M ]; then git -C /repo worktree add -q --detach $M $head || exit 3; fi
 git -C $M checkout -q --detach $head && git -C $M checkout -q -- . && git -C $M clean -fdq
-git -C $M apply --check "$patch" || { echo "patch does not apply"; exit 3; }
-git -C $M apply "$patch"
+# (a patch made against an older HEAD is merged three-way: later fix commits may have touched neighbouring lines)
+if git -C $M apply --check "$patch" 2>/dev/null; then git -C $M apply "$patch"
+elif git -C $M apply -3 "$patch" >/dev/null 2>&1 && ! git -C $M diff --name-only --diff-filter=U | grep -q .; then git -C $M reset -q
+else echo "patch does not apply"; git -C $M checkout -q -- . ; exit 3; fi
 for id in "$@"; do
   (cd /verif && VERIF_REPO=$M ./check $id --no-evidence ${TIER:+--tier $TIER} 2>&1 | grep -E "sig=|^$id |HARNESS" | head -8)
 done
